@@ -249,3 +249,12 @@ Theorem genesis_round_trip_keeps : forall s : state,
   (forall x, In x (atts (regenesis s)) <-> In x (atts s) /\ in_compass s x = true).
 Proof. exact regenesis_facts. Qed.
 Print Assumptions genesis_round_trip_keeps.
+
+(** Second-round source facts the model and the proofs rely on: attestationTally returns
+    TryAttestation's error (the stall theorems), the claim handlers admit only Bonded validators
+    ([voters_were_bonded]), and each of the 15 store accessors of the oracle opens the store of the
+    chain reference id it is called with (the translator refuses the source otherwise). *)
+Theorem model_is_of_current_source_2 :
+  Gen.C02.tally_aborts_on_error = true /\ Gen.C02.vote_requires_bonded = true /\ Gen.C02.per_chain_store_sites = 15.
+Proof. exact source_facts2. Qed.
+Print Assumptions model_is_of_current_source_2.
